@@ -128,6 +128,95 @@ theorem mergeFile_conflict_free (day : Nat) (mine : List Nat) (others : List (Li
       · exact absurd ⟨c, hc, h⟩ hk)
     rw [this]
 
+/-! ## how many lines the merge reports -/
+
+theorem sum_zipIdx (g : Nat → Nat → Nat) (P : Nat → Bool) (w : Nat) : ∀ (l : List Nat) (k : Nat),
+    (∀ j (hj : j < l.length), g l[j] (k + j) = if P (k + j) then w else 0) →
+    ((l.zipIdx k).map (fun p => g p.1 p.2)).sum = w * ((List.range' k l.length).filter P).length := by
+  intro l
+  induction l with
+  | nil => intro k _; simp
+  | cons a l ih =>
+    intro k h
+    have h0 := h 0 (by simp)
+    simp only [List.getElem_cons_zero, Nat.add_zero] at h0
+    have ht := ih (k + 1) (by
+      intro j hj
+      have := h (j + 1) (by simp; omega)
+      simp only [List.getElem_cons_succ] at this
+      rw [show k + 1 + j = k + (j + 1) by omega]
+      exact this)
+    simp only [List.zipIdx_cons, List.map_cons, List.sum_cons, List.length_cons, List.range'_succ, List.filter_cons]
+    rw [ht, h0]
+    cases hp : P k <;> simp [hp, Nat.mul_add, Nat.add_comm]
+
+/-- does some copy know the origin of line `i`? -/
+def knownAt (copies : List (List Nat)) (truth : List Nat) (i : Nat) : Bool :=
+  copies.any fun c => c.getD i 0 == truth.getD i 0
+
+/-- **reports of a conflict-free merge**: exactly the lines no copy knows are reported, once each (and none at all if the
+merge value is itself the mark, i.e. during a nested merge) -/
+theorem mergeFile_conflict_free_reports (day : Nat) (mine : List Nat) (others : List (List Nat)) (truth : List Nat)
+    (hlen : ∀ c ∈ mine :: others, c.length = truth.length)
+    (htruth : ∀ t ∈ truth, isMark t = false)
+    (hall : ∀ c ∈ mine :: others, ∀ i (hi : i < truth.length), isMark (c.getD i 0) = true ∨ c.getD i 0 = truth[i])
+    (lines : List Nat) (n : Nat) (hm : mergeFile day mine others = some (lines, n)) :
+    n = (if isMark day then 0 else 1) *
+      ((List.range truth.length).filter fun i => !knownAt (mine :: others) truth i).length := by
+  have hml : mine.length = truth.length := hlen mine List.mem_cons_self
+  unfold mergeFile at hm
+  split at hm
+  · simp at hm
+  · simp only [Option.some.injEq, Prod.mk.injEq] at hm
+    obtain ⟨_, hn⟩ := hm
+    rw [← hn, List.map_map]
+    have key := sum_zipIdx (fun l i => (Mg.resolve day l (transpose others i)).2)
+      (fun i => !knownAt (mine :: others) truth i) (if isMark day then 0 else 1) mine 0 (by
+        intro j hj
+        have hjt : j < truth.length := by omega
+        simp only [Nat.zero_add]
+        have hmine : mine[j] = mine.getD j 0 := by simp [List.getD, List.getElem?_eq_getElem hj]
+        have htj : truth.getD j 0 = truth[j] := by simp [List.getD, List.getElem?_eq_getElem hjt]
+        have hvals : ∀ v ∈ mine[j] :: transpose others j, ∃ c ∈ mine :: others, v = c.getD j 0 := by
+          intro v hv
+          rcases List.mem_cons.1 hv with rfl | hv
+          · exact ⟨mine, List.mem_cons_self, hmine⟩
+          · obtain ⟨o, ho, rfl⟩ := transpose_mem others j v hv
+            exact ⟨o, List.mem_cons_of_mem _ ho, rfl⟩
+        by_cases hk : knownAt (mine :: others) truth j = true
+        · simp only [hk, Bool.not_true, Bool.false_eq_true, if_false]
+          unfold knownAt at hk
+          simp only [List.any_eq_true, beq_iff_eq] at hk
+          obtain ⟨c, hc, hct⟩ := hk
+          rw [htj] at hct
+          have hone : truth[j] ∈ mine[j] :: transpose others j := by
+            rcases List.mem_cons.1 hc with rfl | hc
+            · rw [← hct, hmine]; exact List.mem_cons_self
+            · apply List.mem_cons_of_mem
+              unfold transpose
+              exact List.mem_map.2 ⟨c, hc, hct⟩
+          rw [resolve_known day mine[j] (transpose others j) truth[j] (htruth _ (List.getElem_mem hjt))
+            (by
+              intro v hv
+              obtain ⟨c', hc', rfl⟩ := hvals v hv
+              exact hall c' hc' j hjt) hone]
+        · simp only [Bool.not_eq_true] at hk
+          simp only [hk, Bool.not_false, if_true]
+          rw [resolve_unknown day mine[j] (transpose others j) (by
+            intro v hv
+            obtain ⟨c', hc', rfl⟩ := hvals v hv
+            rcases hall c' hc' j hjt with h | h
+            · exact h
+            · exfalso
+              unfold knownAt at hk
+              rw [List.any_eq_false] at hk
+              have := hk c' hc'
+              rw [htj, h] at this
+              simp at this)])
+    rw [hml] at key
+    rw [List.range_eq_range']
+    exact key
+
 /-- the hypotheses are satisfiable and the conclusion is what the model computes: line 0 is known to the first copy (value 5),
 line 1 to nobody (both copies carry the mark) and becomes a line of the merge commit (value 9, reported once) -/
 example : mergeFile 9 [5, 16383] [[16383, 16383]] = some ([5, 9], 1) := by decide
